@@ -25,6 +25,7 @@ func RawStyp() []byte {
 type SidxRefSpec struct {
 	Size uint32
 	Dur  uint32
+	Type uint32 // 0: media, 1: another sidx (hierarchical index)
 }
 
 // RawSidx makes a segment index box (version 0 or 1) whose anchor is the first byte after the box plus firstOffset.
@@ -42,7 +43,7 @@ func RawSidx(version byte, refID, timescale uint32, ept, firstOffset uint64, ref
 	p = append(p, be16(0)...)
 	p = append(p, be16(uint16(len(refs)))...)
 	for _, r := range refs {
-		p = append(p, be32(r.Size&0x7fffffff)...)
+		p = append(p, be32(r.Type<<31|r.Size&0x7fffffff)...)
 		p = append(p, be32(r.Dur)...)
 		p = append(p, be32(1<<31|1<<28)...)
 	}
